@@ -8,7 +8,7 @@ Import ListNotations.
 Definition never (a : aset) : Prop := forall p, In p a -> kind_of p = KNever.
 Definition Pinv (P : pset) (e : env) : Prop := forall x, pmem x P = true -> never (aget e x).
 (* no trigger into a dereference has a producer that can fire *)
-Definition safe (tr : list trigger) : Prop := forall t, In t tr -> t_cons t = KAlways -> t_prod t = KNever.
+Definition safe (tr : list strig) : Prop := forall t, In t tr -> s_cons t = CAlways -> kind_of (s_prod t) = KNever.
 
 Lemma pmem_in x P : pmem x P = true <-> In x P.
 Proof.
@@ -67,16 +67,16 @@ Proof.
   - intros [H1 H2] t Ht. apply in_app_or in Ht. destruct Ht; auto.
 Qed.
 
-Lemma safe_cond_cons (a : aset) id k : safe (map (fun p => mk_trigger id p (KCond k)) a).
+Lemma safe_cond_cons (a : aset) id k : safe (map (fun p => mk_trigger id p (CSite k)) a).
 Proof. intros t Ht. apply in_map_iff in Ht. destruct Ht as [p [<- _]]. cbn. discriminate. Qed.
 
-Lemma safe_deref (a : aset) d : never a -> safe (map (fun p => mk_trigger d p KAlways) a).
+Lemma safe_deref (a : aset) d : never a -> safe (map (fun p => mk_trigger d p CAlways) a).
 Proof. intros H t Ht _. apply in_map_iff in Ht. destruct Ht as [p [<- Hp]]. cbn. auto. Qed.
 
 Lemma safe_store x a : safe (store_triggers x a).
 Proof. destruct x; cbn; [intros t []|apply safe_cond_cons]. Qed.
 
-Lemma safe_args e g : forall args i, safe (arg_triggers e g i args).
+Lemma safe_args e sf : forall args i, safe (arg_triggers e sf i args).
 Proof.
   induction args as [|a args IH]; intros i; cbn; [intros t []|].
   apply safe_app. split; [apply safe_cond_cons|apply IH].
@@ -125,7 +125,7 @@ Qed.
 Lemma prot_frame st : forall P P' ok x,
   stmt_prot st P = (Some P', ok) -> pmem x P = true -> ~ In x (assigned st) -> pmem x P' = true.
 Proof.
-  induction st as [| s1 IH1 s2 IH2 | y a | y g args | d y | c s1 IH1 s2 IH2 | c body IH | a]; intros P P' ok x H Hx Hn; cbn in H, Hn.
+  induction st as [| s1 IH1 s2 IH2 | y a | cs y g args | d y | c s1 IH1 s2 IH2 | c body IH | a]; intros P P' ok x H Hx Hn; cbn in H, Hn.
   - inversion H; subst; auto.
   - destruct (stmt_prot s1 P) as [[P1|] ok1] eqn:E1; [|discriminate].
     destruct (stmt_prot s2 P1) as [o2 ok2] eqn:E2. inversion H; subst.
@@ -162,6 +162,8 @@ Qed.
 
 Section Analysis.
   Variable ng : nat.
+  Variable ctr : fname -> bool.
+  Variable sp : fname -> bool.
   Variable f : fname.
   Variable fuel : nat.
 
@@ -182,17 +184,17 @@ Section Analysis.
   Qed.
 
   Theorem analyze_prot : forall st e r P oP,
-    Pinv P e -> analyze ng f fuel st e = Some r -> stmt_prot st P = (oP, true) ->
+    Pinv P e -> analyze ng ctr sp f fuel st e = Some r -> stmt_prot st P = (oP, true) ->
     safe (a_trig r) /\ forall e', a_env r = Some e' -> exists P', oP = Some P' /\ Pinv P' e'.
   Proof.
-    induction st as [| s1 IH1 s2 IH2 | y a | y g args | d y | c s1 IH1 s2 IH2 | c body IH | a]; intros e r P oP HP Han Hs; cbn in Han, Hs.
+    induction st as [| s1 IH1 s2 IH2 | y a | cs y g args | d y | c s1 IH1 s2 IH2 | c body IH | a]; intros e r P oP HP Han Hs; cbn in Han, Hs.
     - inversion Han; inversion Hs; subst; cbn. split; [intros t []|]. intros e' He. inversion He; subst. eauto.
-    - destruct (analyze ng f fuel s1 e) as [r1|] eqn:E1; [|discriminate].
+    - destruct (analyze ng ctr sp f fuel s1 e) as [r1|] eqn:E1; [|discriminate].
       destruct (stmt_prot s1 P) as [[P1|] ok1] eqn:F1.
       + destruct (stmt_prot s2 P1) as [o2 ok2] eqn:F2. inversion Hs as [[Ho Hok]]. apply andb_true_iff in Hok. destruct Hok as [-> ->].
         destruct (IH1 _ _ _ _ HP E1 F1) as [S1 N1].
         destruct (a_env r1) as [e1|] eqn:Ee1.
-        * destruct (analyze ng f fuel s2 e1) as [r2|] eqn:E2; [|discriminate]. inversion Han; subst; cbn.
+        * destruct (analyze ng ctr sp f fuel s2 e1) as [r2|] eqn:E2; [|discriminate]. inversion Han; subst; cbn.
           destruct (N1 e1 eq_refl) as [P1' [HP1 HI1]]. inversion HP1; subst P1'.
           destruct (IH2 _ _ _ _ HI1 E2 F2) as [S2 N2]. split; [apply safe_app; auto|exact N2].
         * inversion Han; subst. split; auto. rewrite Ee1. discriminate.
@@ -213,8 +215,8 @@ Section Analysis.
     - inversion Han; inversion Hs as [[Ho Hm]]; subst; cbn. split; [apply safe_deref; auto|].
       intros e' He. inversion He; subst. eauto.
     - destruct (acond c e) as [[[et ef] trc] bc] eqn:Ec. destruct (cond_prot c P) as [[Pt Pf] okc] eqn:Fc.
-      destruct (analyze ng f fuel s1 et) as [r1|] eqn:E1; [|discriminate].
-      destruct (analyze ng f fuel s2 ef) as [r2|] eqn:E2; [|discriminate].
+      destruct (analyze ng ctr sp f fuel s1 et) as [r1|] eqn:E1; [|discriminate].
+      destruct (analyze ng ctr sp f fuel s2 ef) as [r2|] eqn:E2; [|discriminate].
       destruct (stmt_prot s1 Pt) as [oa oka] eqn:F1. destruct (stmt_prot s2 Pf) as [ob okb] eqn:F2.
       inversion Han; inversion Hs as [[Ho Hok]]; subst; cbn.
       apply andb_true_iff in Hok. destruct Hok as [Hok ->]. apply andb_true_iff in Hok. destruct Hok as [-> ->].
@@ -228,13 +230,13 @@ Section Analysis.
         eapply Pinv_sub; [|exact Ia]. intros x Hx. apply pmem_pinter in Hx. tauto.
       * destruct (N2 _ eq_refl) as [Pb [-> Ib]]. destruct oa as [Pa|]; cbn; eexists; split; eauto.
         eapply Pinv_sub; [|exact Ib]. intros x Hx. apply pmem_pinter in Hx. tauto.
-    - destruct (loop_inv (analyze ng f fuel body) c fuel e) as [[einv r0]|] eqn:El; [|discriminate].
+    - destruct (loop_inv (analyze ng ctr sp f fuel body) c fuel e) as [[einv r0]|] eqn:El; [|discriminate].
       set (P' := filter (fun x => negb (pmem x (assigned body))) P) in *.
       destruct (cond_prot c P') as [[Pt Pf] okc] eqn:Fc. destruct (stmt_prot body Pt) as [ob okb] eqn:Fb.
       inversion Hs as [[Ho Hok]]. apply andb_true_iff in Hok. destruct Hok as [-> ->]. subst oP.
       assert (HP' : Pinv P' e).
       { eapply Pinv_sub; [|exact HP]. intros x Hx. apply pmem_in in Hx. apply filter_In in Hx. apply pmem_in. tauto. }
-      assert (Hbody : forall e0 r1 eb, Pinv P' e0 -> analyze ng f fuel body (cond_true c e0) = Some r1 -> a_env r1 = Some eb -> Pinv P' eb).
+      assert (Hbody : forall e0 r1 eb, Pinv P' e0 -> analyze ng ctr sp f fuel body (cond_true c e0) = Some r1 -> a_env r1 = Some eb -> Pinv P' eb).
       { intros e0 r1 eb H0 Ha He. unfold cond_true in Ha. destruct (acond c e0) as [[[et0 ef0] tr0] b0] eqn:Ec0. cbn in Ha.
         destruct (acond_prot _ _ _ _ _ _ _ _ _ H0 Ec0 Fc) as [At _].
         destruct (IH _ _ _ _ At Ha Fb) as [_ N]. destruct (N _ He) as [Pe [-> Ie]].
@@ -253,12 +255,13 @@ Section Analysis.
 End Analysis.
 
 (* whole programs: all dereferences protected => the emitted constraints contain no sink at all, hence no flow *)
-Lemma safe_no_sink ts : safe ts -> forall t a, In t ts -> In a (atoms_of_trigger t) ->
+Lemma safe_no_sink ts : safe ts -> forall t a, In t ts -> In a (atoms_of_trigger (etrig t)) ->
   match a with ASnk _ | ADirect _ => False | _ => True end.
 Proof.
-  intros H t a Ht Ha. unfold atoms_of_trigger, atom_of_kinds in Ha.
-  destruct (t_prod t) eqn:Ep, (t_cons t) eqn:Ec; cbn in Ha; try contradiction;
-    try (destruct Ha as [<-|[]]; auto); specialize (H t Ht Ec); congruence.
+  intros H t a Ht Ha. unfold atoms_of_trigger, atom_of_kinds, etrig in Ha. cbn in Ha.
+  destruct (s_cons t) eqn:Ec.
+  - rewrite (H t Ht Ec) in Ha. contradiction.
+  - destruct (kind_of (s_prod t)); cbn in Ha; try contradiction; destruct Ha as [<-|[]]; auto.
 Qed.
 
 Lemma safe_decl gi : forall k, safe (decl_triggers k gi).
@@ -267,40 +270,73 @@ Proof.
   destruct b; [intros t []|]. intros t [<-|[]]. cbn. discriminate.
 Qed.
 
-Lemma analyze_funcs_safe ng fuel : forall fds f0 tss b,
-  analyze_funcs ng fuel f0 fds = Some (tss, b) ->
-  forallb (fun fd => snd (stmt_prot (f_body fd) [])) fds = true -> safe (concat tss).
+Lemma analyze_funcs_safe ng fuel ctr sp : forall fds f0 tss b,
+  analyze_funcs ng fuel ctr sp f0 fds = Some (tss, b) ->
+  forallb (fun fd => snd (stmt_prot (f_body fd) [])) fds = true -> forall tg, In tg tss -> safe tg.
 Proof.
   induction fds as [|fd fds IH]; intros f0 tss b H Hg; cbn in H.
-  - inversion H; subst. intros t [].
+  - inversion H; subst. intros tg [].
   - cbn in Hg. apply andb_true_iff in Hg. destruct Hg as [Hg1 Hg2].
-    destruct (analyze_func ng fuel f0 fd) as [[t1 b1]|] eqn:E1; [|discriminate].
-    destruct (analyze_funcs ng fuel (S f0) fds) as [[t2 b2]|] eqn:E2; [|discriminate].
-    inversion H; subst. cbn. apply safe_app. split; [|eapply IH; eauto].
+    destruct (analyze_func ng fuel ctr (sp f0) f0 fd) as [[t1 b1]|] eqn:E1; [|discriminate].
+    destruct (analyze_funcs ng fuel ctr sp (S f0) fds) as [[t2 b2]|] eqn:E2; [|discriminate].
+    inversion H; subst. intros tg [<-|Hin]; [|eapply IH; eauto].
     unfold analyze_func in E1.
-    destruct (analyze ng f0 fuel (f_body fd) (entry_env f0 0 (f_nparams fd))) as [r|] eqn:Ea; [|discriminate].
+    destruct (analyze ng ctr (sp f0) f0 fuel (f_body fd) (entry_env f0 0 (f_nparams fd))) as [r|] eqn:Ea; [|discriminate].
     inversion E1; subst.
     destruct (stmt_prot (f_body fd) []) as [oP ok] eqn:Es. cbn in Hg1. subst ok.
     assert (HP : Pinv [] (entry_env f0 0 (f_nparams fd))) by (intros x Hx; discriminate).
-    destruct (analyze_prot ng f0 fuel _ _ _ _ _ HP Ea Es) as [S _].
+    destruct (analyze_prot ng ctr (sp f0) f0 fuel _ _ _ _ _ HP Ea Es) as [S _].
     destruct (a_env r); auto. apply safe_app. split; auto. intros t [<-|[]]. cbn. discriminate.
 Qed.
 
-Theorem guarded_no_flow prog afuel r :
-  guarded prog = true -> analyze_program afuel prog = Some r -> ~ has_flow (csys_of [] [] (all_triggers r)).
+Lemma safe_concat tss : (forall tg, In tg tss -> safe tg) -> safe (concat tss).
+Proof.
+  intros H t Ht. apply in_concat in Ht. destruct Ht as [tg [H1 H2]]. exact (H tg H1 t H2).
+Qed.
+
+(* duplicating a trigger onto a call site keeps it harmless *)
+Lemma safe_dups g cs tg : safe tg -> safe (dups g cs tg).
+Proof.
+  intros H t Ht Hc. unfold dups in Ht. apply in_map_iff in Ht. destruct Ht as [t0 [<- Ht0]].
+  apply filter_In in Ht0. destruct Ht0 as [Ht0 _]. unfold dupt in Hc |- *. cbn in Hc |- *.
+  destruct (is_res_cons g t0) eqn:Er; [discriminate|].
+  specialize (H t0 Ht0 Hc). destruct (is_param_prod g t0) eqn:Ep; auto.
+  unfold is_param_prod in Ep. apply prod_eqb_eq in Ep. rewrite Ep in H. discriminate.
+Qed.
+
+Lemma safe_nth (tss : list (list strig)) g : (forall tg, In tg tss -> safe tg) -> safe (nth g tss []).
+Proof.
+  intros H. destruct (nth_in_or_default g tss []) as [Hin|E]; [auto | rewrite E; intros t []].
+Qed.
+
+Lemma safe_dups_all ctr sp tss : (forall tg, In tg tss -> safe tg) -> forall fds f0 dg, In dg (dups_all ctr sp tss f0 fds) -> safe dg.
+Proof.
+  intros H. induction fds as [|fd fds IH]; intros f0 dg Hin; cbn in Hin; [contradiction|].
+  destruct Hin as [<-|Hin]; [|eapply IH; eauto].
+  unfold dups_of_caller. intros t Ht. apply in_flat_map in Ht. destruct Ht as [[g cs] [_ Ht]]. cbn in Ht.
+  destruct (ctr g && sp f0 g); [|contradiction]. revert t Ht. apply safe_dups. now apply safe_nth.
+Qed.
+
+Theorem guarded_no_flow prog afuel ctr pk r :
+  guarded prog = true -> analyze_program afuel ctr pk prog = Some r -> ~ has_flow (csys_of [] [] (all_triggers r)).
 Proof.
   intros Hg Han. unfold analyze_program in Han.
-  destruct (analyze_funcs (length (p_ginit prog)) afuel 0 (p_funcs prog)) as [[tss b]|] eqn:Ef; [|discriminate].
-  inversion Han; subst. unfold all_triggers. cbn [fst snd].
-  assert (S : safe (decl_triggers 0 (p_ginit prog) ++ concat tss)).
-  { apply safe_app. split; [apply safe_decl | eapply analyze_funcs_safe; eauto]. }
-  set (ALL := decl_triggers 0 (p_ginit prog) ++ concat tss) in *.
-  assert (NoSink : forall a, act (csys_of [] [] ALL) a -> match a with ASnk _ | ADirect _ => False | _ => True end).
+  set (sp2 := fun f g : fname => Nat.eqb (pk f) (pk g)) in *.
+  destruct (analyze_funcs (length (p_ginit prog)) afuel ctr sp2 0 (p_funcs prog)) as [[tss b]|] eqn:Ef; [|discriminate].
+  inversion Han; subst. unfold all_triggers, all_strigs. cbn [r_decl r_funcs r_dups].
+  pose proof (analyze_funcs_safe _ _ _ _ _ _ _ _ Ef Hg) as Sf.
+  assert (S : safe (decl_triggers 0 (p_ginit prog) ++ concat tss ++ concat (dups_all ctr sp2 tss 0 (p_funcs prog)))).
+  { apply safe_app. split; [apply safe_decl|]. apply safe_app. split; [now apply safe_concat|].
+    apply safe_concat. intros dg Hd. eapply safe_dups_all; eauto. }
+  set (ALLs := decl_triggers 0 (p_ginit prog) ++ concat tss ++ concat (dups_all ctr sp2 tss 0 (p_funcs prog))) in *.
+  assert (NoSink : forall a, act (csys_of [] [] (map etrig ALLs)) a -> match a with ASnk _ | ADirect _ => False | _ => True end).
   { intros a [Ha|[k [Ha _]]]; unfold csys_of in Ha; cbn in Ha.
     - apply in_flat_map in Ha. destruct Ha as [t [Ht Ha]].
-      apply filter_In in Ht. destruct Ht as [Ht _]. eapply safe_no_sink; eauto.
+      apply filter_In in Ht. destruct Ht as [Ht _]. apply in_map_iff in Ht. destruct Ht as [t0 [<- Ht0]].
+      eapply safe_no_sink; eauto.
     - apply in_flat_map in Ha. destruct Ha as [t [Ht Ha]]. destruct (t_ctrl t) as [k'|]; [|contradiction].
-      apply in_map_iff in Ha. destruct Ha as [a' [Ea Ha]]. inversion Ea; subst. eapply safe_no_sink; eauto. }
+      apply in_map_iff in Ha. destruct Ha as [a' [Ea Ha]]. inversion Ea; subst.
+      apply in_map_iff in Ht. destruct Ht as [t0 [<- Ht0]]. eapply safe_no_sink; eauto. }
   intros [[t Ht]|[s [_ Hs]]].
   - exact (NoSink _ Ht).
   - induction Hs as [s Ha|p c t Ha Hc IH]; auto. exact (NoSink _ Ha).
